@@ -26,10 +26,15 @@ def vc_filter(vc):
     return True
 
 
+def native(desc):
+    from props import C09
+    return C09.native(desc)
+
+
 def lot_window(pr):
     """The window of lots offered to a disposal: lots up to the last one not later than the event, found through keys that order like (instant, id)."""
     from props import C09
-    return C09.set_to_index_window(pr)
+    return C09.set_to_index_window(pr) + C09.key_order(pr)
 
 
 MANIFEST_ENTRY = {
